@@ -72,6 +72,9 @@ type VC struct {
 	axiomNames []string
 	usedPures  map[string]bool
 	bseqSrc    map[Term][3]Term // Bytes constant -> (array, offset, length) it abstracts
+	freshRefs  map[Term]int     // reference terms produced by an allocation -> name counter at creation
+	freshFloor int              // name counter when the innermost loop discovery started (0 = none)
+	oldWrites  map[string]bool  // heaps written at a possibly pre-existing object (reset per loop discovery)
 	unsupported []string
 	stack      []string
 	ifaceSpecsUsed map[string]bool
